@@ -389,6 +389,14 @@ async fn expand(
                     ));
                 }
             }
+            // an accepted operation is in the store afterwards (a prune only removes smaller seqs)
+            if accepted && !after.get(&lk).is_some_and(|m| m.get(&e.op.header.seq_num).is_some_and(|r| r.iter().any(|x| x.0 == e.op.hash.to_hex()))) {
+                out.violations.push((
+                    "accepted-but-not-stored".into(),
+                    format!("path {:?}: {} was accepted ({res}) but is not in its log afterwards", replay["path"], e.name),
+                    replay.clone(),
+                ));
+            }
             if let Err((k, w)) = chain_invariant(&after) {
                 out.violations.push((format!("chain/{k}"), format!("path {:?} deliver {} ({res}): {w}", replay["path"], e.name), replay.clone()));
             }
@@ -581,9 +589,9 @@ pub fn explore(rep: &mut Report, cfg: &Cfg, u: &Universe, max_levels: usize) {
 pub fn run_c03(mut rep: Report) -> i32 {
     let thorough = rep.thorough();
     let spec = if thorough {
-        Spec { chains: vec![(0, 0, 5, vec![2, 4]), (0, 1, 3, vec![]), (1, 0, 4, vec![1]), (1, 1, 2, vec![1])], forge_for: vec![0, 2] }
+        Spec { chains: vec![(0, 0, 5, vec![2, 4]), (0, 1, 3, vec![]), (1, 0, 4, vec![1]), (1, 1, 3, vec![0, 1])], forge_for: vec![0, 2] }
     } else {
-        Spec { chains: vec![(0, 0, 4, vec![2]), (0, 1, 2, vec![]), (1, 0, 3, vec![1])], forge_for: vec![0] }
+        Spec { chains: vec![(0, 0, 4, vec![2]), (0, 1, 2, vec![]), (1, 0, 3, vec![1]), (1, 1, 2, vec![0])], forge_for: vec![0] }
     };
     let u = build(&spec);
     rep.rule = format!(
@@ -605,7 +613,7 @@ pub fn run_c05(mut rep: Report) -> i32 {
     rep.rule = "explicit-state BFS to fixpoint over (stored set, prune floor) for one author/one log of length N with prune flags at every placement of the enumerated family; every delivery (any operation of the log, any time, any number of times) goes through the real ingest_operation followed by prune_entries for accepted prune-flagged operations (the pipeline's LogPrune step); invariant in every state: no stored entry below the highest accepted prune point; non-trivial = distinct non-empty reachable state".into();
     // all placements of prune flags on positions 1..len-1 with at least one flag
     let len: u32 = if thorough { 6 } else { 5 };
-    let positions: Vec<u32> = (1..len).collect();
+    let positions: Vec<u32> = (0..len).collect();
     let mut specs: Vec<(String, Universe)> = vec![];
     for mask in 1u32..(1 << positions.len()) {
         let flags: Vec<u32> = positions.iter().enumerate().filter(|(i, _)| mask & (1 << i) != 0).map(|(_, p)| *p).collect();
